@@ -69,6 +69,25 @@ class Gen16:
             elif k < 0.8:
                 budget[0] -= 1
                 out.append(self.loop(depth, env_names, budget))
+            elif k < 0.83:
+                budget[0] -= 1
+                # string items (the empty string among them): the body only prints the variable, arithmetic is left to the index
+                words = [r.choice(["a", "", "b c", "", "x", "0", " ", "é"]) for _ in range(r.randint(1, 4))]
+                var = "s%d" % depth
+                idx = ("j%d" % depth) if r.random() < 0.6 else None
+                if r.random() < 0.6 or any("," in w or w.strip() != w for w in words):
+                    data = ", ".join("'%s'" % w for w in words)
+                    self.feats.add("for.strings")
+                else:
+                    data = "split(',', '%s')" % ",".join(words)
+                    self.feats.add("for.strings-split")
+                if "" in words:
+                    self.feats.add("for.empty-item")
+                self.nontrivial = True
+                body = [("raw", '<text xy="^|v 1" text="item[$%s%s]"/>' % (var, ("|$" + idx) if idx else ""))]
+                body += self.block(depth + 1, env_names + ([idx] if idx else []), budget)
+                out.append(("for-str", data, words, var, idx, body))
+                out.append(("raw", '<text xy="^|v 1" text="after[$%s%s]"/>' % (var, ("|$" + idx) if idx else "")))
             elif k < 0.9:
                 budget[0] -= 1
                 # numeric items only: bodies do arithmetic on the loop variable, and a failing body is retried by svgdx,
@@ -205,6 +224,11 @@ def render(block, ind="  "):
             out.append('%s<for var="%s" data="%s"%s>' % (ind, var, ", ".join(items), (' idx-var="%s"' % idx) if idx else ""))
             out += render(body, ind + "  ")
             out.append("%s</for>" % ind)
+        elif t == "for-str":
+            _, data, words, var, idx, body = node
+            out.append('%s<for var="%s" data="%s"%s>' % (ind, var, data, (' idx-var="%s"' % idx) if idx else ""))
+            out += render(body, ind + "  ")
+            out.append("%s</for>" % ind)
         elif t == "if-lit":
             out.append('%s<if test="%d">' % (ind, node[1]))
             out += render(node[2], ind + "  ")
@@ -262,6 +286,15 @@ def unroll(block, env, ind="  "):
             for j, it in enumerate(items):
                 txt = it[1:-1] if it.startswith("'") else ("2" if it == "1+1" else it)
                 out.append('%s<var %s="%s"/>' % (ind, var, txt))
+                e2 = dict(env)
+                if idx:
+                    out.append('%s<var %s="%d"/>' % (ind, idx, j))
+                    e2[idx] = j
+                out += unroll(body, e2, ind)
+        elif t == "for-str":
+            _, data, words, var, idx, body = node
+            for j, w in enumerate(words):
+                out.append('%s<var %s="%s"/>' % (ind, var, w))
                 e2 = dict(env)
                 if idx:
                     out.append('%s<var %s="%d"/>' % (ind, idx, j))
